@@ -42,3 +42,22 @@ Definition ex_names : list bytes := [bs "/sync"; bs "/async"].
 Definition ex_http2 : bytes :=
   firstn (length ex_http - 2) ex_http ++ bs "GET /async/z HTTP/1.1" ++ crlf ++ crlf.
 Definition ex_http2_chunks : list bytes := [firstn 40 ex_http2; firstn 50 (skipn 40 ex_http2); skipn 90 ex_http2].
+
+(* ------------------------------------------------------------------ HTTP encoder instances *)
+From CppcmsV Require Import C01.HttpEnc.
+Definition ex_hs : list (bytes * bytes) :=
+  [(bs "Host", bs "h"); (bs "X-Fold", bs "a b"); (bs "Content-Type", bs "text/plain"); (bs "Content-Length", bs "3")].
+Definition ex_head : bytes := enc_head (req_line (bs "POST") (bs "/sync/a%20b?x=1") (bs "HTTP/1.1") :: map hdr_line ex_hs).
+(* a folded line (CRLF SP outside quotes is removed) with a quoted string and a comment (kept verbatim) *)
+Definition ex_folded_line : bytes := bs "X-F: a" ++ crlf ++ bs " b ""q(x"" (c""d)".
+Definition ex_folded_hdr : bytes := bs "X-F: a b ""q(x"" (c""d)".
+
+(* the view of the example request, and a second request for the keep-alive instance *)
+From CppcmsV Require Import C01.HttpEncProofs C01.HttpView C01.Conn.
+Definition ex_dummy_view : view := mkview [] [] [] [] [] 0%Z [].
+Definition view_of_req (m u pr : bytes) (hs : list (bytes * bytes)) : view :=
+  match process_request ex_names (fold_left add_hdr hs (http_req0 m u pr)) with POk v => v | PBad400 => ex_dummy_view end.
+Definition ex_v : view := view_of_req (bs "POST") (bs "/sync/a%20b?x=1") (bs "HTTP/1.1") ex_hs.
+Definition ex_q1 : hq := mkhq (bs "POST") (bs "/sync/a%20b?x=1") (bs "HTTP/1.1") ex_hs (bs "abc") ex_v.
+Definition ex_q2 : hq := mkhq (bs "GET") (bs "/async") (bs "HTTP/1.0") [(bs "Accept", bs "*/*")] []
+                             (view_of_req (bs "GET") (bs "/async") (bs "HTTP/1.0") [(bs "Accept", bs "*/*")]).
